@@ -70,6 +70,25 @@ def suite_codecs(ctx):
             chk('DataFormatIdentifier.accept', b, d, 'accepted')
         else:
             chk('DataFormatIdentifier.reencode', b, (d.get_byte_as_int(), d.compression, d.encryption), (b, b >> 4, b & 0xF))
+    # decoding is a function of the byte alone: what a caller did to an earlier result (the objects are mutable: flags are set on a decoded
+    # status before it is sent back, availability masks are edited) must not show in the next decode of the same byte
+    def scramble(obj, depth=0):
+        for k_, v_ in list(vars(obj).items()):
+            if isinstance(v_, bool):
+                setattr(obj, k_, not v_)
+            elif isinstance(v_, int):
+                setattr(obj, k_, (v_ + 1) & 0xF)
+            elif hasattr(v_, '__dict__') and depth < 2:
+                scramble(v_, depth + 1)
+    for name, dec, mask in (('Status', Dtc.Status.from_byte, 0xFF), ('Severity', Dtc.Severity.from_byte, 0xE0), ('DtcClass', Dtc.DtcClass.from_byte, 0x1F),
+                            ('CommunicationType', CommunicationType.from_byte, 0xFF), ('DataFormatIdentifier', DataFormatIdentifier.from_byte, 0xFF)):
+        for b in range(256):
+            x = safe(lambda: dec(b))
+            if isinstance(x, str):
+                continue
+            scramble(x)
+            y = safe(lambda: dec(b))
+            chk(name + '.decode_after_use', b, 'same object handed out twice' if y is x else safe(lambda: y.get_byte_as_int()), b & mask)
     for i in range(256):
         kw = {f: bool(i >> k & 1) for k, f in enumerate(STATUS_BITS)}
         chk('Status.encode', i, Dtc.Status(**kw).get_byte_as_int(), i)
